@@ -5,7 +5,21 @@ Monitor: the dot-product identity <w, A v> = <A^T w, v> evaluated on the real op
   * System.run_apply_linear('fwd') vs ('rev') on the root model and on every sub-group (includes the data
     transfers: forward scatter vs reverse gather with repeated src_indices);
   * System.run_solve_linear('fwd') vs ('rev') on the root model and every sub-group.
-The identity needs no reference values; J v is additionally compared with R (omv/ref/flatmodel.py).
+The identity needs no reference values.
+
+Two families of models:
+  G      random specs of omv/gen/models.py (harness components: explicit / implicit, assembled and matrix-free);
+  stock  small chains of OpenMDAO's own matrix-free / cached-linearization components (omv/gen/c02_kit.py):
+         JaxExplicitComponent / JaxImplicitComponent (matrix_free True and False), ExplicitFuncComp, ImplicitFuncComp
+         (with and without linearize / solve_linear callbacks), ExecComp, BalanceComp, LinearSystemComp, MetaModel
+         components; here the operators of every COMPONENT are judged too, with the inputs that are fed from
+         outside the system as part of the operator's domain.
+
+History: the identity is judged at the first (converged) point and again after every move of a sequence that
+moves ONLY the states (set_val without re-running / a new guess / the other root of a multi-root residual / one
+more solver iteration), ONLY the inputs, both, nothing (re-linearization), or an option the jax components read
+(see c02_kit.MOVES_*).  A fwd operator that is evaluated at the current point and a rev operator that is cached
+from an earlier one are not adjoint; a single linearization point cannot see that.
 """
 import random
 
@@ -14,6 +28,7 @@ import numpy as np
 from omv.core import fingerprint
 from omv.kit.gmon import FailureMonitor, exc_key, spec_features, tree_solvers, conn_features
 from omv.kit.poison import poison
+from omv.gen import c02_kit as K2
 
 PROPERTY = 'C02'
 LEVEL = 'exploration'
@@ -21,27 +36,44 @@ TECHNIQUE = 'runtime monitoring: dot-product (adjoint) identity checked on the r
 RULE = ('random model specs (see C01) x random seed vectors; operators: total jacvec products, apply_linear and '
         'solve_linear of the root and of every sub-group; distinct = (wiring features, solver stack, operator); '
         'non-trivial = operator is not the identity (model has connections with indices/units or a loop); every '
-        'third spec carries random ref/ref0/res_ref solver scaling (total operator judged only)')
-MIN_JUDGED = {'quick': 120, 'thorough': 3000}
-REQUIRED_COUNTERS = ['obs:jacvec-duality', 'obs:apply_linear-duality', 'obs:solve_linear-duality',
-                     'obs:subgroup-operators', 'obs:repeated-src_indices-model', 'obs:matfree-model',
-                     'obs:assembled-model', 'obs:scaled-model-total-operator']
+        'third spec carries random ref/ref0/res_ref solver scaling (total operator judged only); second family: '
+        'chains of 2-3 stock components (jax explicit/implicit matrix-free and assembled, func comps, ExecComp, '
+        'BalanceComp, LinearSystemComp, MetaModel comps) x who owns the solvers x root linear solver, operators of '
+        'every group AND component; history: every operator pair is judged at the first point and after each move '
+        'of a random sequence (states only: set_val / new guess / other root / one solver iteration; inputs only; '
+        'both; re-linearization; changed static option), all moves in random order')
+MIN_JUDGED = {'quick': 150, 'thorough': 3500}
+REQUIRED_COUNTERS = (['obs:jacvec-duality', 'obs:apply_linear-duality', 'obs:solve_linear-duality',
+                      'obs:subgroup-operators', 'obs:repeated-src_indices-model', 'obs:matfree-model',
+                      'obs:assembled-model', 'obs:scaled-model-total-operator',
+                      'obs:component-operators', 'obs:external-input-seeds', 'obs:jacvec-no-relinearize',
+                      'obs:other-root-reached', 'obs:history-steps-judged'] +
+                     ['move:G:' + m for m in K2.MOVES_G] + ['move:stock:' + m for m in K2.MOVES_STOCK] +
+                     ['class:' + c for c in sorted(set(K2.CLASS_OF.values()))])
 ASSUMPTIONS = ['linear solves are judged only when no linear solver reported non-convergence',
-               'tolerance: 1e-10 * (|w||Av| + |A^T w||v|) for products, 1e-7 relative for iterative solves']
+               'tolerance: 1e-10 * (|w||Av| + |A^T w||v|) for products, 1e-7 relative for iterative solves',
+               'the identity is a property of the linearization at the CURRENT inputs/outputs, converged or not: after '
+               'every move the operators are linearized again (run_linearize / linearize=True) before they are judged',
+               'stock family: all residuals keep |dR/dy| >= 1 at every visited point (two-root quadratics, states '
+               'perturbed by <= 0.3, independent variables in [0.2, 1]), so no linear system is near singular']
 SHARD_TIMEOUT = {'quick': 1200, 'thorough': 5400}
 OPTS = dict(p_index=0.7, p_units=0.5, p_chain2=0.3, p_param=0.4, p_matfree=0.2, p_sparse=0.6, p_cycle=0.45,
             p_implicit=0.35)
+N_MOVES_G = len(K2.MOVES_G)
 
 
 def shards(tier, seed):
     n = 16 if tier == 'quick' else 64
     per = 12 if tier == 'quick' else 60
-    return [{'seed': seed * 100000 + i * 1000, 'n': per} for i in range(n)]
+    stock = 3 if tier == 'quick' else 12
+    return [{'seed': seed * 100000 + i * 1000, 'n': per, 'stock': stock} for i in range(n)]
 
 
 def run_shard(shard, acc):
     for k in range(shard['n']):
         run_case({'seed': shard['seed'] + k}, acc)
+    for k in range(shard.get('stock', 0)):
+        run_case({'seed': shard['seed'] + k, 'family': 'stock'}, acc)
 
 
 def _groups(model):
@@ -49,7 +81,114 @@ def _groups(model):
     return [s for s in model.system_iter(include_self=True, recurse=True) if isinstance(s, om.Group)]
 
 
+# ----------------------------------------------------------------------------------------------------------
+# the oracle: dot-product identities
+# ----------------------------------------------------------------------------------------------------------
+def _judge_total(probs, of_names, wrt_names, of_shapes, wrt_shapes, nr, fmon, acc, bad, step, linearize=True):
+    v = [nr.uniform(-1, 1, s) for s in wrt_shapes]
+    w_ = [nr.uniform(-1, 1, s) for s in of_shapes]
+    fmon.clear()
+    jv = probs['fwd'].compute_jacvec_product(of_names, wrt_names, 'fwd', v, linearize=linearize)
+    vj = probs['rev'].compute_jacvec_product(of_names, wrt_names, 'rev', w_, linearize=linearize)
+    if fmon.failures:
+        acc.count('skipped:linear-nonconvergence-total')
+        return
+    Jv = np.concatenate([np.asarray(jv[o]).ravel() for o in of_names])
+    JTw = np.concatenate([np.asarray(vj[w]).ravel() for w in wrt_names])
+    vv = np.concatenate([x.ravel() for x in v])
+    ww = np.concatenate([x.ravel() for x in w_])
+    lhs, rhs = ww @ Jv, JTw @ vv
+    # relative to the products; the floor covers responses whose derivative (nearly) vanishes: both
+    # products are then pure solver noise (iterative linear solvers stop at an absolute residual of
+    # 1e-13..1e-14 on systems with O(1) entries), which is bounded relative to |w||v|, not to |Jv|
+    tol = 1e-7 * (np.linalg.norm(ww) * np.linalg.norm(Jv) + np.linalg.norm(JTw) * np.linalg.norm(vv)) \
+        + 1e-9 * np.linalg.norm(ww) * np.linalg.norm(vv) + 1e-13
+    acc.count('obs:jacvec-duality')
+    if not linearize:
+        acc.count('obs:jacvec-no-relinearize')
+    if not abs(lhs - rhs) <= tol:
+        bad.append(('jacvec' if linearize else 'jacvec-linearize=False', None, step, abs(lhs - rhs), tol))
+
+
+def _judge_systems(systems, nr, fmon, acc, bad, step, reps):
+    """systems: list of (system, label, scope, mask of external inputs or None)."""
+    for g, label, scope, ext in systems:
+        # a parent's DirectSolver does not linearize the linear solvers below it: linearize the
+        # system itself before driving its own solve_linear
+        g.run_linearize()
+        do, dr, di = g._doutputs, g._dresiduals, g._dinputs
+        n = do.asarray().size
+        if n == 0:
+            continue
+        ne = int(ext.sum()) if ext is not None else 0
+        for _ in range(reps):
+            v = nr.uniform(-1, 1, n)
+            w = nr.uniform(-1, 1, n)
+            vi = nr.uniform(-1, 1, ne)
+            # apply_linear: (d_inputs fed from outside, d_outputs) -> d_residuals and back
+            di.asarray()[:] = 0.0
+            if ne:
+                di.asarray()[ext] = vi
+            do.asarray()[:] = v
+            dr.asarray()[:] = 0.0
+            g.run_apply_linear('fwd')
+            Av = dr.asarray().copy()
+            do.asarray()[:] = 0.0
+            di.asarray()[:] = 0.0
+            dr.asarray()[:] = w
+            g.run_apply_linear('rev')
+            ATw = do.asarray().copy()
+            ATwi = di.asarray()[ext].copy() if ne else np.zeros(0)
+            lhs, rhs = w @ Av, ATw @ v + ATwi @ vi
+            nATw = np.sqrt(ATw @ ATw + ATwi @ ATwi)
+            nv = np.sqrt(v @ v + vi @ vi)
+            tol = 1e-10 * (np.linalg.norm(w) * np.linalg.norm(Av) + nATw * nv) + 1e-14
+            acc.count('obs:apply_linear-duality')
+            if label == 'subgroup':
+                acc.count('obs:subgroup-operators')
+            if label == 'component':
+                acc.count('obs:component-operators')
+            if ne:
+                acc.count('obs:external-input-seeds')
+            if not abs(lhs - rhs) <= tol:
+                bad.append(('apply_linear:%s' % label, scope, step, abs(lhs - rhs), tol))
+            # solve_linear
+            fmon.clear()
+            do.asarray()[:] = 0.0
+            di.asarray()[:] = 0.0
+            dr.asarray()[:] = v
+            g.run_solve_linear('fwd')
+            x = do.asarray().copy()
+            dr.asarray()[:] = 0.0
+            di.asarray()[:] = 0.0
+            do.asarray()[:] = w
+            g.run_solve_linear('rev')
+            y = dr.asarray().copy()
+            if fmon.failures:
+                acc.count('skipped:linear-nonconvergence-group')
+                continue
+            lhs, rhs = w @ x, y @ v
+            tol = 1e-7 * (np.linalg.norm(w) * np.linalg.norm(x) + np.linalg.norm(y) * np.linalg.norm(v)) + 1e-13
+            acc.count('obs:solve_linear-duality')
+            if not abs(lhs - rhs) <= tol:
+                ln = getattr(g, '_linear_solver', None)
+                bad.append(('solve_linear:%s:ln=%s' % (label, type(ln).__name__ if ln is not None else 'own'),
+                            scope, step, abs(lhs - rhs), tol))
+        do.asarray()[:] = 0.0
+        dr.asarray()[:] = 0.0
+        di.asarray()[:] = 0.0
+
+
+def _finite(p):
+    return bool(np.all(np.isfinite(p.model._outputs.asarray())) and np.all(np.isfinite(p.model._inputs.asarray())))
+
+
+# ----------------------------------------------------------------------------------------------------------
+# family G
+# ----------------------------------------------------------------------------------------------------------
 def run_case(case, acc):
+    if case.get('family') == 'stock':
+        return run_stock_case(case, acc)
     from omv.gen import models as G
     from omv.ref.flatmodel import FlatModel
     rng = random.Random(case['seed'])
@@ -62,6 +201,12 @@ def run_case(case, acc):
     tainted = any('KNOWN-nd-nonflat-single-index' in f for f in cfs)
     nr = np.random.default_rng(case['seed'])
     fm = FlatModel(spec)
+    # the history: own random streams, so that the first point sees the same numbers as before
+    hrng = random.Random(case['seed'] + 7919)
+    hnr = np.random.default_rng(case['seed'] + 7919)
+    moves = list(K2.MOVES_G)
+    hrng.shuffle(moves)
+    moves = moves[:N_MOVES_G]
 
     def K(what):
         if tainted:
@@ -70,7 +215,24 @@ def run_case(case, acc):
     of, wrt = spec['of'], spec['wrt']
     of_names = [G.top_name(spec, o) for o in of]
     wrt_names = [G.top_name(spec, w) for w in wrt]
+    of_shapes = [fm.out_shape[o] for o in of]
+    wrt_shapes = [fm.out_shape[w] for w in wrt]
+    state_shapes, abs_states, indep_shapes, top_indeps = {}, {}, {}, {}
+    for c in spec['comps']:
+        for oo in c['outputs']:
+            if c['kind'] == 'ivc':
+                indep_shapes[oo['name']] = tuple(oo['shape'])
+                top_indeps[G.top_name(spec, oo['name'])] = oo['name']
+            else:
+                state_shapes[oo['name']] = tuple(oo['shape'])
+                abs_states[G.abs_name(spec, oo['name'])] = oo['name']
+    used = set(cn['src'] for cn in spec['conns'])
+    for pp in spec['params']:
+        if pp['name'] in used:
+            indep_shapes[pp['name']] = tuple(pp['shape'])
+            top_indeps[pp['name']] = pp['name']
     probs = {}
+    steps_done = 0
     with FailureMonitor() as fmon, poison():
         try:
             for mode in ('fwd', 'rev'):
@@ -85,95 +247,43 @@ def run_case(case, acc):
             acc.skip('nonlinear-solver-nonconvergence')
             return
         bad = []
+        step = 'initial'
         try:
-            # ---- total operator ---------------------------------------------------------------
-            for _ in range(2):
-                v = [nr.uniform(-1, 1, fm.out_shape[w]) for w in wrt]
-                w_ = [nr.uniform(-1, 1, fm.out_shape[o]) for o in of]
-                fmon.clear()
-                jv = probs['fwd'].compute_jacvec_product(of_names, wrt_names, 'fwd', v, linearize=True)
-                vj = probs['rev'].compute_jacvec_product(of_names, wrt_names, 'rev', w_, linearize=True)
-                if fmon.failures:
-                    acc.count('skipped:linear-nonconvergence-total')
-                    continue
-                Jv = np.concatenate([np.asarray(jv[o]).ravel() for o in of_names])
-                JTw = np.concatenate([np.asarray(vj[w]).ravel() for w in wrt_names])
-                vv = np.concatenate([x.ravel() for x in v])
-                ww = np.concatenate([x.ravel() for x in w_])
-                lhs, rhs = ww @ Jv, JTw @ vv
-                # relative to the products; the floor covers responses whose derivative (nearly) vanishes: both
-                # products are then pure solver noise (iterative linear solvers stop at an absolute residual of
-                # 1e-13..1e-14 on systems with O(1) entries), which is bounded relative to |w||v|, not to |Jv|
-                tol = 1e-7 * (np.linalg.norm(ww) * np.linalg.norm(Jv) + np.linalg.norm(JTw) * np.linalg.norm(vv)) \
-                    + 1e-9 * np.linalg.norm(ww) * np.linalg.norm(vv) + 1e-13
-                acc.count('obs:jacvec-duality')
-                if not abs(lhs - rhs) <= tol:
-                    bad.append(('jacvec', abs(lhs - rhs), tol))
-            # ---- group operators (rev-mode problem has both transfer directions) ---------------
-            # (not with solver scaling: run_apply_linear/run_solve_linear take and return vectors in the
-            #  forward scaling convention, in which the rev operator is not the plain transpose; the total
-            #  operator above is the scaling-independent observable)
             p = probs['rev']
-            p.model.run_linearize()
-            if scaled:
-                acc.count('obs:scaled-model-total-operator')
-            for g in ([] if scaled else _groups(p.model)):
-                label = 'root' if g.pathname == '' else 'subgroup'
-                # a parent's DirectSolver does not linearize the linear solvers below it: linearize the
-                # group itself before driving its own solve_linear
-                g.run_linearize()
-                do, dr, di = g._doutputs, g._dresiduals, g._dinputs
-                n = do.asarray().size
-                if n == 0:
-                    continue
-                for _ in range(2):
-                    v = nr.uniform(-1, 1, n)
-                    w = nr.uniform(-1, 1, n)
-                    # apply_linear
-                    di.asarray()[:] = 0.0
-                    do.asarray()[:] = v
-                    dr.asarray()[:] = 0.0
-                    g.run_apply_linear('fwd')
-                    Av = dr.asarray().copy()
-                    do.asarray()[:] = 0.0
-                    di.asarray()[:] = 0.0
-                    dr.asarray()[:] = w
-                    g.run_apply_linear('rev')
-                    ATw = do.asarray().copy()
-                    lhs, rhs = w @ Av, ATw @ v
-                    tol = 1e-10 * (np.linalg.norm(w) * np.linalg.norm(Av) + np.linalg.norm(ATw) * np.linalg.norm(v)) \
-                        + 1e-14
-                    acc.count('obs:apply_linear-duality')
-                    if label == 'subgroup':
-                        acc.count('obs:subgroup-operators')
-                    if not abs(lhs - rhs) <= tol:
-                        bad.append(('apply_linear:%s' % label, abs(lhs - rhs), tol))
-                    # solve_linear
-                    fmon.clear()
-                    do.asarray()[:] = 0.0
-                    di.asarray()[:] = 0.0
-                    dr.asarray()[:] = v
-                    g.run_solve_linear('fwd')
-                    x = do.asarray().copy()
-                    dr.asarray()[:] = 0.0
-                    di.asarray()[:] = 0.0
-                    do.asarray()[:] = w
-                    g.run_solve_linear('rev')
-                    y = dr.asarray().copy()
-                    if fmon.failures:
-                        acc.count('skipped:linear-nonconvergence-group')
-                        continue
-                    lhs, rhs = w @ x, y @ v
-                    tol = 1e-7 * (np.linalg.norm(w) * np.linalg.norm(x) + np.linalg.norm(y) * np.linalg.norm(v)) + 1e-13
-                    acc.count('obs:solve_linear-duality')
-                    if not abs(lhs - rhs) <= tol:
-                        bad.append(('solve_linear:%s:ln=%s' % (label, type(g.linear_solver).__name__),
-                                    abs(lhs - rhs), tol))
-                do.asarray()[:] = 0.0
-                dr.asarray()[:] = 0.0
-                di.asarray()[:] = 0.0
+            # (group operators not with solver scaling: run_apply_linear/run_solve_linear take and return vectors
+            #  in the forward scaling convention, in which the rev operator is not the plain transpose; the total
+            #  operator is the scaling-independent observable)
+            systems = [] if scaled else [(g, 'root' if g.pathname == '' else 'subgroup', None, None)
+                                         for g in _groups(p.model)]
+            for k, move in enumerate(['initial'] + moves):
+                step = move
+                if k > 0:
+                    d = K2.draw_move(hnr, move, state_shapes, indep_shapes)
+                    for pr in probs.values():
+                        K2.apply_move_g(pr, d, abs_states, top_indeps)
+                    fmon.clear()     # the identity does not need a converged point
+                    if not all(_finite(pr) for pr in probs.values()):
+                        acc.count('skipped:history-nonfinite-state')
+                        break
+                    acc.count('move:G:' + move)
+                # ---- total operator -----------------------------------------------------------------
+                for _ in range(2 if k == 0 else 1):
+                    _judge_total(probs, of_names, wrt_names, of_shapes, wrt_shapes, nr if k == 0 else hnr, fmon, acc,
+                                 bad, step)
+                if move == 'relin':
+                    _judge_total(probs, of_names, wrt_names, of_shapes, wrt_shapes, hnr, fmon, acc, bad, step,
+                                 linearize=False)
+                # ---- group operators (rev-mode problem has both transfer directions) -------------------
+                p.model.run_linearize()
+                if scaled and k == 0:
+                    acc.count('obs:scaled-model-total-operator')
+                _judge_systems(systems, nr if k == 0 else hnr, fmon, acc, bad, step, 2 if k == 0 else 1)
+                if k > 0:
+                    acc.count('obs:history-steps-judged')
+                steps_done = k
         except Exception as e:
-            acc.viol(K(exc_key('linear-operator-api', e)), '%s: %s' % (type(e).__name__, str(e)[:200]), case)
+            what = 'linear-operator-api' if step == 'initial' else 'linear-operator-api@' + step
+            acc.viol(K(exc_key(what, e)), '%s: %s' % (type(e).__name__, str(e)[:200]), case)
             return
         finally:
             for p in probs.values():
@@ -187,13 +297,145 @@ def run_case(case, acc):
     if bad:
         first = True
         seen = set()
-        for what, err, tol in bad:
+        for what, _, step, err, tol in bad:
             if what in seen:
                 continue
-            seen.add(what)
-            acc.viol(K('not-adjoint:' + what), '%s: |<w,Av> - <A^T w,v>| = %.3e > tol %.1e' % (what, err, tol),
+            seen.add(what)      # an operator is reported once, at the first step it fails
+            key = what if step == 'initial' else '%s@%s' % (what, step)
+            acc.viol(K('not-adjoint:' + key), '%s after %s: |<w,Av> - <A^T w,v>| = %.3e > tol %.1e'
+                     % (what, step, err, tol), case, new_case=first)
+            first = False
+    else:
+        acc.ok(fingerprint([feats, tree_solvers(spec), moves[:steps_done]]), nontrivial=bool(spec['conns']),
+               sample={'seed': case['seed'], 'features': feats, 'solvers': tree_solvers(spec), 'moves': moves})
+
+
+# ----------------------------------------------------------------------------------------------------------
+# family stock
+# ----------------------------------------------------------------------------------------------------------
+def _stock_systems(p, spec, info):
+    """every group and every component (but the IndepVarComp) of the rev-mode problem."""
+    import openmdao.api as om
+    kind_of = {info['paths'][b['name']]: b['kind'] for b in spec['blocks']}
+    out = []
+    for s in p.model.system_iter(include_self=True, recurse=True):
+        if isinstance(s, om.IndepVarComp):
+            continue
+        path = s.pathname
+        blk = [k for pth, k in kind_of.items() if path == pth or path.startswith(pth + '.')]
+        if isinstance(s, om.Group):
+            label = 'root' if path == '' else 'subgroup'
+            if blk:
+                scope = K2.CLASS_OF[blk[0]]
+            else:
+                scope = None        # g / root: whatever is below
+        else:
+            label = 'component'
+            scope = K2.CLASS_OF[blk[0]] if blk and path in kind_of else type(s).__name__
+        out.append((s, label, scope, K2.external_inputs(p.model, s)))
+    return out
+
+
+def run_stock_case(case, acc):
+    rng = random.Random(case['seed'] + 104729)
+    lead = K2.KINDS[case['seed'] % len(K2.KINDS)]
+    spec = K2.gen_stock_spec(rng, lead)
+    nr = np.random.default_rng(case['seed'] + 104729)
+    classes = K2.stock_classes(spec)
+    n = spec['n']
+    probs, infos = {}, {}
+    with FailureMonitor() as fmon, poison():
+        try:
+            for mode in ('fwd', 'rev'):
+                p, info = K2.build_stock(spec)
+                p.setup(mode=mode)
+                K2.init_stock(p, spec, info)
+                p.run_model()
+                probs[mode], infos[mode] = p, info
+        except Exception as e:
+            acc.viol('stock:%s:with=%s' % (exc_key('setup-or-run', e), '+'.join(classes)),
+                     '%s: %s' % (type(e).__name__, str(e)[:200]), case)
+            for p in probs.values():
+                p.cleanup()
+            return
+        if fmon.failures:
+            acc.skip('stock:nonlinear-solver-nonconvergence')
+            for p in probs.values():
+                p.cleanup()
+            return
+        info = infos['rev']
+        of_names, wrt_names = info['of'], info['wrt']
+        state_shapes = {st: (n,) for st, _, _ in info['states']}
+        indep_shapes = {w: (n,) for w in wrt_names}
+        bad = []
+        step = 'initial'
+        steps_done = 0
+        try:
+            p = probs['rev']
+            systems = _stock_systems(p, spec, info)
+            multi = [st for st, _, m in info['states'] if m]
+            for k, move in enumerate(['initial'] + spec['moves']):
+                step = move
+                if k > 0:
+                    before = {st: np.asarray(p.get_val(st)).copy() for st in multi}
+                    d = K2.draw_move(nr, move, state_shapes, indep_shapes, indep_range=K2.A_RANGE)
+                    for mode in ('fwd', 'rev'):
+                        K2.apply_move_stock(probs[mode], spec, infos[mode], d)
+                    if move == 'other-root':
+                        if fmon.failures:
+                            # the other root was not reached: the point is still legal, but do not count it
+                            acc.count('skipped:other-root-not-converged')
+                        else:
+                            for st in multi:
+                                vtx = K2.vertex(p, spec, info, st)
+                                if np.all((np.asarray(p.get_val(st)) - vtx) * (before[st] - vtx) < 0):
+                                    acc.count('obs:other-root-reached')
+                    fmon.clear()
+                    if not all(_finite(pr) for pr in probs.values()):
+                        acc.count('skipped:history-nonfinite-state')
+                        break
+                    acc.count('move:stock:' + move)
+                for _ in range(2 if k == 0 else 1):
+                    _judge_total(probs, of_names, wrt_names, [(n,)], [(n,), (n,)], nr, fmon, acc, bad, step)
+                if move == 'relin':
+                    _judge_total(probs, of_names, wrt_names, [(n,)], [(n,), (n,)], nr, fmon, acc, bad, step,
+                                 linearize=False)
+                p.model.run_linearize()
+                _judge_systems(systems, nr, fmon, acc, bad, step, 2 if k == 0 else 1)
+                if k > 0:
+                    acc.count('obs:history-steps-judged')
+                steps_done = k
+        except Exception as e:
+            what = 'linear-operator-api' if step == 'initial' else 'linear-operator-api@' + step
+            acc.viol('stock:%s:with=%s' % (exc_key(what, e), '+'.join(classes)),
+                     '%s: %s' % (type(e).__name__, str(e)[:200]), case)
+            return
+        finally:
+            for p in probs.values():
+                p.cleanup()
+    for c in classes:
+        acc.count('class:' + c)
+    if bad:
+        # operators of a component name its class; operators of groups / totals name the classes whose own
+        # operators failed in this case (else all classes of the model)
+        culprits = sorted(set(sc for what, sc, _, _, _ in bad if what.startswith(('apply_linear:component',
+                                                                                  'solve_linear:component'))
+                              and sc in K2.CLASS_OF.values()))
+        first = True
+        seen = set()
+        for what, scope, step, err, tol in bad:
+            comp_level = what.split(':')[1:2] == ['component']
+            who = scope if (comp_level and scope) else 'with=' + '+'.join(culprits or classes)
+            if (what, who) in seen:
+                continue
+            seen.add((what, who))
+            key = what if step == 'initial' else '%s@%s' % (what, step)
+            acc.viol('stock:not-adjoint:%s:%s' % (key, who),
+                     '%s (%s) after %s: |<w,Av> - <A^T w,v>| = %.3e > tol %.1e' % (what, who, step, err, tol),
                      case, new_case=first)
             first = False
     else:
-        acc.ok(fingerprint([feats, tree_solvers(spec)]), nontrivial=bool(spec['conns']),
-               sample={'seed': case['seed'], 'features': feats, 'solvers': tree_solvers(spec)})
+        acc.ok(fingerprint([[b['kind'] for b in spec['blocks']], spec['cfg'], spec['root_ln'], spec.get('g_ln'),
+                            [b.get('ln') for b in spec['blocks']]]), nontrivial=True,
+               sample={'seed': case['seed'], 'family': 'stock', 'blocks': [b['kind'] for b in spec['blocks']],
+                       'cfg': spec['cfg'], 'root_ln': spec['root_ln'], 'moves': spec['moves'][:steps_done]})
